@@ -309,6 +309,7 @@ type c18Backend interface {
 	refusedLoad(path string) error // load / migrate a file that must be refused
 	save() (bool, error)           // persist without reloading (false = not applicable to this back end)
 	reloadSame() (bool, error)     // load the persisted file into the SAME instance, dropping unsaved changes
+	listIDs() ([]string, bool)     // IDs of everything a listing / scan would consider (false = not applicable)
 	close()
 }
 
@@ -333,6 +334,7 @@ func (b *c18Pebble) saveLoad() error {
 	return nil
 }
 
+func (b *c18Pebble) listIDs() ([]string, bool) { return nil, false }
 func (b *c18Pebble) save() (bool, error)       { return false, nil }
 func (b *c18Pebble) reloadSame() (bool, error) { return false, nil }
 func (b *c18Pebble) refusedLoad(path string) error {
@@ -346,8 +348,16 @@ type c18JSON struct {
 }
 
 func (b *c18JSON) refusedLoad(path string) error { return b.s.LoadDatabase(path) }
-func (b *c18JSON) save() (bool, error)           { return true, b.s.SaveDatabase(b.path) }
-func (b *c18JSON) reloadSame() (bool, error)     { return true, b.s.LoadDatabase(b.path) }
+func (b *c18JSON) listIDs() ([]string, bool) {
+	var ids []string
+	for _, sg := range b.s.GetDatabase().Signatures {
+		ids = append(ids, sg.ID)
+	}
+	sort.Strings(ids)
+	return ids, true
+}
+func (b *c18JSON) save() (bool, error)       { return true, b.s.SaveDatabase(b.path) }
+func (b *c18JSON) reloadSame() (bool, error) { return true, b.s.LoadDatabase(b.path) }
 
 func (b *c18JSON) add(sig *detection.Signature) error { return b.s.AddSignature(sig) }
 func (b *c18JSON) addBatch(sigs []*detection.Signature) error {
@@ -560,6 +570,19 @@ func TestVerifC18AddGet(t *testing.T) {
 						failed = true
 					} else if sigCanon(*got) != sigCanon(want[id]) {
 						r.Violate(key+"/content-"+label, fmt.Sprintf("GetSignature(%s) content differs after %v:\n got  %s\n want %s", id, names, sigCanon(*got), sigCanon(want[id])), rp)
+						failed = true
+					}
+				}
+				// the listing (what scans iterate over) holds every current signature exactly once: no
+				// superseded version of a re-added ID, no stale entry
+				if ids, ok := b.listIDs(); ok {
+					var wantIDs []string
+					for id := range want {
+						wantIDs = append(wantIDs, id)
+					}
+					sort.Strings(wantIDs)
+					if strings.Join(ids, ",") != strings.Join(wantIDs, ",") {
+						r.Violate(key+"/listing", fmt.Sprintf("after %v the store lists the IDs %v, the current signature set is %v (a superseded or stale entry is still reachable by scans)", names, ids, wantIDs), rp)
 						failed = true
 					}
 				}
